@@ -11,7 +11,9 @@ RULE = ("A generated relation signature (1-4 columns over number, unsigned, floa
         "pools (INT_MIN/MAX, UINT_MAX, floats needing 9 significant digits, max finite, tiny normal, symbols over an alphabet chosen "
         "per format: blanks, quotes, brackets, commas, semicolons, backslashes, '$', '|', empty string, UTF-8 bytes) and an IO "
         "configuration: tab text, custom single- and multi-character delimiter, rfc4180=true, headers=true, compress=true (gzip), "
-        "IO=jsonfile (list and object format), IO=sqlite. One souffle program writes the relation, a second program with FRESH symbol "
+        "IO=jsonfile (list and object format), IO=sqlite; 12% of the non-SQLite cases (25% more of the gzip ones) carry 2500-9000 further rows "
+        "expanded from one generated seed (text far beyond the 64 KiB stream buffers); 60% of the SQLite cases write a second relation "
+        "sharing symbols with the first into the same database file (either declaration order). One souffle program writes the relation, a second program with FRESH symbol "
         "and record tables reads the file back with the matching options and writes it in the default format; the result must be "
         "exactly the original tuple set (values compared typed: floats by float32 value, records/ADTs structurally). Symbols are "
         "restricted to what the format's documented grammar can represent (plain text: no delimiter / line break, and inside records "
@@ -150,11 +152,51 @@ def gen(ch):
     if fmt["io"] == "file" and not fmt.get("rfc4180") and fmt.get("delimiter") in (",", " "):
         # the printed form of records / ADTs contains ", ": such a delimiter cannot carry nested values in plain text
         allowed = [t for t in allowed if t in ("number", "unsigned", "float", "symbol")]
+    bulk = None
+    if fmt["io"] != "sqlite" and ch.bool(0.12) or fmt.get("compress") and ch.bool(0.25):
+        # a relation whose text form is far larger than any stream buffer (64 KiB): 2500-9000 further rows expanded from one
+        # generated seed over the scalar types (numbers over the whole range, 9-digit floats, symbols of varying length)
+        allowed = [t for t in allowed if t in ("number", "unsigned", "float", "symbol")]
+        bulk = {"seed": ch.int(0, (1 << 30) - 1), "n": ch.int(2500, 9000)}
     types = [ch.choice(allowed) for _ in range(ncol)]
     rows = []
     for _ in range(ch.int(1, 8)):
         rows.append([gen_val(ch, t, fmt) for t in types])
-    return {"fmt": fmt, "types": types, "rows": rows}
+    case = {"fmt": fmt, "types": types, "rows": rows}
+    if bulk:
+        case["bulk"] = bulk
+    if fmt["io"] == "sqlite" and ch.bool(0.6):
+        # a second relation in the same database file that shares symbols with the first
+        syms = sorted({v for r in rows for v, t in zip(r, types) if t == "symbol"})
+        rows2 = []
+        for _ in range(ch.int(1, 6)):
+            rows2.append([ch.choice(syms) if syms and ch.bool(0.7) else gen_val(ch, "symbol", fmt), ch.choice(NUMS),
+                          ch.choice(syms) if syms and ch.bool(0.5) else gen_val(ch, "symbol", fmt)])
+        case["second"] = rows2
+        case["second_first"] = ch.bool(0.5)
+    return case
+
+
+def bulk_rows(case):
+    import random
+    b = case.get("bulk")
+    if not b:
+        return []
+    rnd = random.Random(b["seed"])
+    out = []
+    for i in range(b["n"]):
+        row = []
+        for t in case["types"]:
+            if t == "number":
+                row.append(rnd.choice([rnd.randint(I32_MIN, I32_MAX), rnd.randint(-99, 99), i]))
+            elif t == "unsigned":
+                row.append(rnd.choice([rnd.randint(0, U32_MAX), rnd.randint(0, 99), i]))
+            elif t == "float":
+                row.append(f32(rnd.choice([rnd.randint(-10 ** 6, 10 ** 6) / 64.0, i * 0.5, rnd.random()])))
+            else:
+                row.append("sym_%d%s" % (rnd.randint(0, 10 ** rnd.randint(1, 8)), "x" * rnd.randint(0, 5)))
+        out.append(row)
+    return out
 
 
 def io_params(fmt, fname):
@@ -264,10 +306,11 @@ def has_nested_sym_issue(types, rows):
 
 def judge(case, st=None):
     fmt, types, rows = case["fmt"], case["types"], [list(r) for r in case["rows"]]
-    rows = [[tuple_fix(v) for v in r] for r in rows]
+    rows = [[tuple_fix(v) for v in r] for r in rows] + bulk_rows(case)
+    rows2 = [list(r) for r in case.get("second") or []]
     if has_nested_sym_issue(types, rows):
         raise Discard("nested_symbol_not_printable_in_default_format")
-    if any("\t" in v for r in rows for v, t in zip(r, types) if t == "symbol"):
+    if any("\t" in v for r in rows for v, t in zip(r, types) if t == "symbol") or any("\t" in r[0] + r[2] for r in rows2):
         raise Discard("tab_in_top_level_symbol")    # the read-back program writes tab-separated text
     decl = ".decl r(%s)\n" % ", ".join("c%d:%s" % (i, t) for i, t in enumerate(types))
     fname = {"file": "data.csv" + (".gz" if fmt.get("compress") else ""), "jsonfile": "data.json", "sqlite": "data.db"}[fmt["io"]]
@@ -276,6 +319,14 @@ def judge(case, st=None):
     # a few unrelated symbols/records first, so that the reading program's tables assign different ids
     reader = TYPEDEFS + '.decl pad(s:symbol, l:List)\npad("zzz", [9, [8, nil]]).\npad("yyy", nil).\n' + decl + \
         ".input r(%s)\n.output r\n" % io_params(fmt, fname)
+    if rows2:
+        # (souffle writes the relations of a program in declaration order; both orders are generated)
+        name2 = "a2" if case.get("second_first") else "s2"
+        decl2 = ".decl %s(a:symbol, n:number, b:symbol)\n" % name2
+        w2 = decl2 + "".join("%s(%s, %d, %s).\n" % (name2, lit(r[0], "symbol"), r[1], lit(r[2], "symbol")) for r in rows2) + \
+            ".output %s(%s)\n" % (name2, io_params(fmt, fname))
+        writer = (TYPEDEFS + w2 + writer[len(TYPEDEFS):]) if case.get("second_first") else writer + w2
+        reader += decl2 + ".input %s(%s)\n.output %s\n" % (name2, io_params(fmt, fname), name2)
     with Scratch("c17") as d:
         write_files(d, {"w.dl": writer, "r.dl": reader})
         os.makedirs(os.path.join(d, "out"), exist_ok=True)
@@ -293,7 +344,14 @@ def judge(case, st=None):
             except OSError:
                 raw = b"<no file>"
             raise Violation("reading back what souffle wrote failed: rc=%s\n%s\nfile: %r" % (rr.rc, rr.err[-1200:], raw), {"case": case})
-        got_lines = read_outputs(os.path.join(d, "out")).get("r")
+        outs = read_outputs(os.path.join(d, "out"))
+        got_lines = outs.get("r")
+    if rows2:
+        got2 = {tuple(ln.split("\t")) for ln in (outs.get(name2) or [])}
+        want2 = {(r[0], str(r[1]), r[2]) for r in rows2}
+        if got2 != want2:
+            raise Violation("round trip of the second relation (same %s file, shared symbols) changed it:\n lost %r\n invented %r" % (
+                fmt["io"], sorted(want2 - got2)[:5], sorted(got2 - want2)[:5]), {"case": case})
     if got_lines is None:
         raise Violation("no output of the read-back program", {"case": case})
     want = {tuple(r) for r in rows}
@@ -311,6 +369,10 @@ def judge(case, st=None):
             fmt, sorted(want - got, key=repr)[:5], sorted(got - want, key=repr)[:5]), {"case": case})
     if st is not None:
         labels = boundary_labels(fmt, types, rows)
+        if case.get("bulk"):
+            labels.add("bulk:text_larger_than_64KiB")
+        if rows2 and {r[0] for r in rows2} | {r[2] for r in rows2} & {v for r in rows for v, t in zip(r, types) if t == "symbol"}:
+            labels.add("sqlite:second_relation_sharing_symbols")
         st.classes["format:" + fmt_name(fmt)] += 1
         if labels:
             st.nontrivial.add(common.h(repr((fmt, types, rows))))
